@@ -18,7 +18,9 @@ CONSTANTS Kinds, Sigs, MaxBeats, Bug
                     "traced_sync", "traced_async"}
    Sigs  \subseteq {"pos", "kw", "defaults", "varargs"} *)
 
-Outcomes == {"val", "exc", "base"}
+(* "aw": the function returns an awaitable object (a future) as its VALUE - the caller has to get that very object, not
+   what awaiting it would give *)
+Outcomes == {"val", "aw", "exc", "base"}
 Decorators == {"asynchronous", "wrap_async", "traced", "cache", "retry", "throttle", "timeout"}
 NOCTX == 93
 
